@@ -146,13 +146,7 @@ def check_cubic_interpolation(F, rep, rule):
     fi = F.one(CS + "Interpolate")
     rep.analysed(fi)
     fo = Fold(fi, call=hook, opaque_types=r"Eigen::Matrix<double, -1").run()
-    rows = {}
-    for e in fo.events:
-        if e["kind"] != "store":
-            continue
-        m = re.match(r"^(A|temp)\((.*)\)$", e["target"])
-        if m and any(g[0][0] == "loop" for g in e["guards"] if isinstance(g[0], tuple)):
-            rows.setdefault(m.group(1), []).append((e["target_node"], e["value"], e))
+    rows = loop_rows(fo)
     ok, why = check_continuity_rows(fo, rows, "interp")
     rep.check(ok, rule, "cubic|continuity-row|Interpolate", "row i+1: S'(r_{i+1}-) = S'(r_{i+1}+) over (f, f2)",
               "CubicSpline::Interpolate: " + why, fi.loc(), sample=True)
@@ -162,37 +156,48 @@ def check_cubic_interpolation(F, rep, rule):
     fb = fb[0]
     rep.analysed(fb)
     fo2 = Fold(fb, call=hook, opaque_types=r"Eigen::Matrix<double, -1").run()
-    rows2 = {}
-    for e in fo2.events:
-        if e["kind"] == "store" and e["target"].startswith("M(") and any(isinstance(g[0], tuple) and g[0][0] == "loop" for g in e["guards"]):
-            rows2.setdefault("M", []).append((e["target_node"], e["value"], e))
+    rows2 = loop_rows(fo2)
     ok, why = check_continuity_rows(fo2, rows2, "fit")
     rep.check(ok, rule, "cubic|continuity-row|AddBCToFitMatrix", "row i+1 of the constraint matrix is the same C1 condition over [f; f2]",
               "CubicSpline::AddBCToFitMatrix: " + why, fb.loc(), sample=True)
     # boundary rows
-    check_boundary_rows(rep, rule, fo, "Interpolate", fi, "A", interp=True)
-    check_boundary_rows(rep, rule, fo2, "AddBCToFitMatrix", fb, "M", interp=False)
+    check_boundary_rows(rep, rule, fo, "Interpolate", fi, interp=True)
+    check_boundary_rows(rep, rule, fo2, "AddBCToFitMatrix", fb, interp=False)
 
 
-def idx_of(fold, node):
-    """(row, col) sympy of a store target M(row, col) / temp(row)"""
-    n = unwrap(node)
-    args = n["args"][1:]
-    return [fold.ev(a, dict(fold._loop_env)) for a in args]
+def in_loop(e):
+    return any(isinstance(g[0], tuple) and g[0] and g[0][0] in ("loop", "each") for g in e["guards"])
+
+
+def is_local_target(e):
+    t = unwrap(e.get("target_node") or {})
+    base = unwrap(t["args"][0]) if t.get("k") == "opcall" and t.get("args") else None
+    return base is not None and base.get("k") == "ref"
+
+
+def loop_rows(fo):
+    """stores inside the loop into a local/parameter matrix (two indices) or a local vector (one index)"""
+    rows = {"matrix": [], "rhs": []}
+    for e in fo.events:
+        if e["kind"] == "store" and e.get("idx") and in_loop(e) and is_local_target(e) and not isinstance(e["value"], (tuple, sp.Matrix)):
+            if len(e["idx"]) == 2:
+                rows["matrix"].append(e)
+            elif len(e["idx"]) == 1:
+                rows["rhs"].append(e)
+    return rows
 
 
 def check_continuity_rows(fo, rows, mode):
-    """rebuild the row equation from the stores and compare with the C1 condition"""
+    """rebuild the row equation from the stores and compare with the C1 condition at the knot right of interval a"""
     Al, Bl, Cl, Dl, Ar, Br, Cr, Dr = [Fn("%s_prime_%s" % (a, s)) for s in "lr" for a in "ABCD"]
-    # loop variable atom: find it in the stored values
-    vals = [v for lst in rows.values() for _, v, _ in lst]
-    if not vals:
-        return False, "no loop stores found"
+    evs = rows["matrix"] + rows["rhs"]
+    if not rows["matrix"]:
+        return False, "no matrix entries are stored inside the loop"
     atoms = set()
-    for v in vals:
-        for a in sp.preorder_traversal(v):
+    for e in evs:
+        for a in sp.preorder_traversal(e["value"]):
             if str(getattr(a, "func", "")).endswith(("_prime_l", "_prime_r")):
-                atoms.add(a.args[0])
+                atoms.add(sp.expand(a.args[0]))
     if len(atoms) != 1:
         return False, "slope coefficients are taken at different indices %s" % atoms
     i = atoms.pop()
@@ -202,68 +207,89 @@ def check_continuity_rows(fo, rows, mode):
     g = lambda k: S("G%d" % k)
     want = (Al(i) * f(0) + Bl(i) * f(1) + Cl(i) * g(0) + Dl(i) * g(1)) - (Ar(i) * f(1) + Br(i) * f(2) + Cr(i) * g(1) + Dr(i) * g(2))
     got = 0
-    for name, lst in rows.items():
-        for tnode, val, e in lst:
-            t = unwrap(tnode)
-            fold = Fold(fo.f, call=fo.call_hook, opaque_types=fo.opaque_types)
-            # evaluate the index expressions with the loop variable bound to the atom i
-            env = {}
-            for d_, dd in fo.f.decls.items():
-                if dd.get("name") == "i":
-                    env[d_] = i
-            idx = [sp.expand(fold.ev(a, env)) for a in t["args"][1:]]
-            if mode == "interp":
-                if name == "temp":
-                    if sp.expand(idx[0] - (i + 1)) != 0:
-                        return False, "right-hand side stored at row %s, expected i+1" % idx[0]
-                    # temp(i+1) = -(f-part)  ->  f-part = -val ; substitute f_[i+k] -> Fk
-                    fv = -val
-                    for k in range(3):
-                        fv = fv.subs(gsym("f", i + k), f(k))
-                    got += fv
-                else:
-                    if sp.expand(idx[0] - (i + 1)) != 0:
-                        return False, "matrix entry stored at row %s, expected i+1" % idx[0]
-                    k = sp.expand(idx[1] - i)
-                    if k not in (0, 1, 2):
-                        return False, "matrix entry stored at column %s" % idx[1]
-                    got += val * g(int(k))
+    for e in evs:
+        val = e["value"]
+        idx = [sp.expand(x) for x in e["idx"]]
+        if mode == "interp":
+            if sp.expand(idx[0] - (i + 1)) != 0:
+                return False, "%s stored at row %s, expected the knot right of interval %s" % ("right-hand side" if len(idx) == 1 else "matrix entry", idx[0], i)
+            if len(idx) == 1:
+                fv = -val                       # rhs = -(f part)
+                for k in range(3):
+                    fv = fv.subs(gsym("f", i + k), f(k))
+                got += fv
             else:
-                if sp.expand(idx[0] - (o1 + i + 1)) != 0:
-                    return False, "constraint stored at row %s, expected offset1+i+1" % idx[0]
-                c = sp.expand(idx[1] - o2 - i)
-                if c in (0, 1, 2):
-                    got += val * f(int(c))
-                elif sp.expand(c - nn) in (0, 1, 2):
-                    got += val * g(int(sp.expand(c - nn)))
-                else:
-                    return False, "constraint stored at column %s (neither f nor f2 block)" % idx[1]
+                k = sp.expand(idx[1] - i)
+                if k not in (0, 1, 2):
+                    return False, "matrix entry stored at column %s" % idx[1]
+                got += val * g(int(k))
+        else:
+            if len(idx) != 2:
+                continue
+            if sp.expand(idx[0] - (o1 + i + 1)) != 0:
+                return False, "constraint stored at row %s, expected offset1+i+1" % idx[0]
+            c = sp.expand(idx[1] - o2 - i)
+            if c in (0, 1, 2):
+                got += val * f(int(c))
+            elif sp.expand(c - nn) in (0, 1, 2):
+                got += val * g(int(sp.expand(c - nn)))
+            else:
+                return False, "constraint stored at column %s (neither f nor f2 block)" % idx[1]
     if not is_zero(got - want):
         return False, "row equation is %s = 0, the C1 condition at knot i+1 is %s = 0" % (sp.expand(got), sp.expand(want))
     return True, ""
 
 
-def check_boundary_rows(rep, rule, fo, fname, f, mat, interp):
+def check_boundary_rows(rep, rule, fo, fname, f, interp):
+    from vsa.cases import executes
+    from sympy.core.function import AppliedUndef
     nn = S("n", integer=True)
+    p0 = f.j["params"][0]["name"] if f.j.get("params") else None
+    Nn = S("N")
+
+    def canon(x):
+        x = sp.expand(x)
+        for a in list(x.atoms(AppliedUndef)):
+            if str(a.func) == "size" and p0 is not None and str(a.args[0]) == p0:
+                x = x.xreplace({a: Nn})
+        return sp.expand(x)
+    cand = [e for e in fo.events if e["kind"] == "store" and e.get("idx") and len(e["idx"]) == 2 and is_local_target(e) and not in_loop(e)]
     st = {}
-    for e in fo.events:
-        if e["kind"] != "store" or not e["target"].startswith(mat + "("):
-            continue
-        sw = [g for g in e["guards"] if isinstance(g[0], tuple) and g[0][0] == "switch"]
-        if not sw:
-            continue
-        label = sw[-1][0][2][0].split("::")[-1]
-        t = unwrap(e["target_node"])
-        fold = Fold(fo.f, call=fo.call_hook, opaque_types=fo.opaque_types)
-        idx = tuple(sp.expand(fold.ev(a, {})) for a in t["args"][1:])
-        st.setdefault(label, {})[idx] = e["value"]
+    for label in ("splineNormal", "splinePeriodic"):
+        def orc(leaf, label=label):
+            if isinstance(leaf, tuple) and leaf and leaf[0] == "switch":
+                return ("this-case", any(str(l).split("::")[-1] == label for l in leaf[2])) if "boundaries_" in str(leaf[1]) else None
+            if isinstance(leaf, tuple) and len(leaf) == 3 and leaf[0] in ("==", "!="):
+                a_, b_ = str(leaf[1]), str(leaf[2])
+                if "boundaries_" in a_ + b_:
+                    other = b_ if "boundaries_" in a_ else a_
+                    return ("this-case", (other.split("::")[-1] == label) == (leaf[0] == "=="))
+            return None
+        from vsa.cases import decide
+
+        def runs(e):
+            """guards that do not concern the boundary kind (argument checks) are taken as passed"""
+            for c, pol, _n in e["guards"]:
+                if "boundaries_" in str(c):
+                    r_ = decide(c, None, {"this-case": True}, orc, getattr(fo, "conds", {}))
+                    if r_ is None:
+                        return None
+                    if r_ != pol:
+                        return False
+            for gl in e.get("not", []):
+                if gl and all("boundaries_" in str(c) for c, _p, _n in gl[-1:]):
+                    rs = [decide(c, None, {"this-case": True}, orc, getattr(fo, "conds", {})) == pol for c, pol, _n in gl if "boundaries_" in str(c)]
+                    if rs and all(rs):
+                        return False
+            return True
+        for e in cand:
+            x = runs(e)
+            if x is None:
+                raise AnalysisBroken("CubicSpline::%s: cannot decide whether %s is set for %s" % (fname, e["target"], label))
+            if x:
+                st.setdefault(label, {})[tuple(canon(i_) for i_ in e["idx"])] = e["value"]
     o1, o2 = (0, 0) if interp else (S("offset1"), S("offset2"))
-    N = S("N", integer=True) if interp else nn
     if interp:
-        Nn = S("N")
-        nd = [d for d in f.decls.values() if d.get("name") == "N" and d.get("init") is not None]
-        rep.check(len(nd) == 1 and show(nd[0]["init"]) == "x.size()", rule, "cubic|N-is-size", "N = x.size()",
-                  "CubicSpline::Interpolate: N is not the number of data points", f.loc())
         want_normal = {(0, 0): 1, (Nn - 1, Nn - 1): 1}
         want_periodic = {(0, 0): 1, (0, Nn - 1): -1, (Nn - 1, 0): 1, (Nn - 1, Nn - 1): -1}
     else:
